@@ -14,7 +14,8 @@ import mir_eval
 from core import Case
 
 PID = "C13"
-LEAN_MODULES = ["MirProofs.Props.C13"]
+LEAN_MODULES = ["MirProofs.Props.C13", "MirProofs.Props.C13_Gen"]
+TRANSLATOR_PARTS = ["utilint"]     # harness/translate/utilint.py -> lean/MirGen/UtilInt.lean (Props/C13_Gen.lean: Gen = model)
 RULE = ("times on the 1/32 lattice (exact in binary64); crop points drawn from {None, a boundary, an interior "
         "point, a point inside a gap, beyond either end}; non-trivial = the call returns a value (no exception) "
         "and the annotation is non-empty; thorough tier enumerates all annotations with <= 3 intervals on an "
@@ -371,6 +372,77 @@ def suite_small(rng, tier, shard, nshards):
                    tol=0.0, tag="validate_events", info={"events": [F(x) for x in ev]})
 
 
+# ----------------------------------------------------------------------------------------
+# the functions as REGENERATED from the source (driver op `gen.utilint`, lean/MirGen/UtilInt.lean, translator part
+# `utilint`) vs the real functions: the same exact-lattice streams as the hand-model suites above, plus (also in the quick
+# tier) ALL annotations with <= 3 intervals on a 5-point lattice x all (t_min, t_max) on a 7-point lattice incl. None
+
+GEN_FUNCTIONS = ("adjust_intervals", "adjust_events", "intervals_to_boundaries", "boundaries_to_intervals",
+                 "sort_labeled_intervals", "intervals_to_durations", "validate_intervals")
+GEN_SOURCES = {"adjust_intervals": "adjust_intervals", "adjust_events": "adjust_events", "boundaries": "boundaries",
+               "small": "small", "merge_labeled_intervals": "merge_labeled_intervals"}
+
+
+def as_gen(c):
+    """the hand-model case `util.<f> args` as a case of the generated definition `gen.utilint "<f>" args`"""
+    fn = c.op.split(".", 1)[1]
+    args = list(c.args)
+    if fn == "intervals_to_boundaries" and len(args) == 1:
+        args.append(5)
+    info = dict(c.info or {}, op="gen.utilint", fn=fn)
+    return Case("gen.utilint", [fn] + args, c.call, tol=c.tol, tag="%s:%s" % (fn, c.tag), info=info,
+                nontrivial=c.nontrivial, post=c.post)
+
+
+def suite_gen_utilint(rng, tier, shard, nshards):
+    for name in ("adjust_intervals", "adjust_events", "boundaries", "small", "merge_labeled_intervals"):
+        for c in SUITES[name](rng, "quick", shard, nshards):
+            if c.op.startswith("util.") and c.op[5:] in GEN_FUNCTIONS:
+                yield as_gen(c)
+    # small scope, exhaustively: crop points on every boundary, between, beyond both ends, None; with and without labels
+    pts = [Fr(k) for k in range(1, 6)]
+    lat = [None] + [Fr(k) for k in range(0, 7)]
+    idx = 0
+    for ivs in enum_annotations(pts, 3 if tier == "thorough" else 2):
+        labs = [LABS[k % 3] for k in range(len(ivs))]
+        for a in lat:
+            for b in lat:
+                idx += 1
+                if idx % nshards != shard:
+                    continue
+                yield as_gen(adjust_case(ivs, labs, a, b, "small-scope", with_labels=(idx % 3 != 0)))
+    for a in lat:
+        for b in lat:
+            yield as_gen(adjust_case([], [], a, b, "empty", with_labels=True))
+            yield as_gen(adjust_case([], [], a, b, "empty", with_labels=False))
+    # events: all subsets of a 5-point lattice x all crop points
+    for mask in range(32):
+        ev = [Fr(k + 1) for k in range(5) if mask >> k & 1]
+        for a in lat:
+            for b in lat:
+                idx += 1
+                if idx % nshards != shard:
+                    continue
+                wl = idx % 3 != 0
+                labs = [LABS[k % 4] for k in range(len(ev))]
+                fa = None if a is None else F(a)
+                fb = None if b is None else F(b)
+                yield as_gen(Case("util.adjust_events", [ev, list(labs) if wl else None, a, b, "__"],
+                                  lambda ev=ev, labs=labs, wl=wl, fa=fa, fb=fb: mir_eval.util.adjust_events(
+                                      np.array([F(x) for x in ev]), list(labs) if wl else None, fa, fb, "__"),
+                                  tol=0.0, tag="small-scope", info={"events": [F(x) for x in ev], "labels": list(labs),
+                                                                    "t_min": fa, "t_max": fb}, nontrivial=bool(ev)))
+    # the decimal places of intervals_to_boundaries (dyadic values: exact in binary64, not ties)
+    for q in (0, 1, 2, 3, 5, 7):
+        for _ in range(6):
+            ivs, _l = rand_annotation(rng)
+            yield Case("gen.utilint", ["intervals_to_boundaries", [[s, e] for s, e in ivs], q],
+                       lambda ivs=ivs, q=q: mir_eval.util.intervals_to_boundaries(arr(ivs), q),
+                       tol=1e-9, tag="intervals_to_boundaries:q=%d" % q,
+                       info={"op": "gen.utilint", "fn": "intervals_to_boundaries", "q": q,
+                             "intervals": [[F(s), F(e)] for s, e in ivs]})
+
+
 SUITES = {
     "adjust_intervals": suite_adjust,
     "adjust_events": suite_adjust_events,
@@ -379,6 +451,7 @@ SUITES = {
     "intervals_to_samples": suite_samples,
     "boundaries": suite_boundaries,
     "small": suite_small,
+    "gen_utilint": suite_gen_utilint,
 }
 
 
@@ -950,6 +1023,12 @@ def _ordered(ivs):
 def classify(suite, d):
     """Map a disagreeing correspondence case to (site, oracle input) when it lies in the statement's domain."""
     i = d["info"]
+    if suite == "gen_utilint":
+        # a generated definition disagreeing with the function it was generated from: tried as an input of that function's
+        # own statement-level oracle
+        src = {"adjust_intervals": "adjust_intervals", "adjust_events": "adjust_events",
+               "merge_labeled_intervals": "merge_labeled_intervals", "boundaries_to_intervals": "boundaries"}.get(i.get("fn"))
+        return classify(src, d) if src else None
     if suite == "adjust_intervals":
         ivs = [tuple(r) for r in i["intervals"]]
         if ivs and _ordered(ivs) and _proper(ivs, i["t_min"], i["t_max"]):
